@@ -429,11 +429,21 @@ def conc(v):
     return None
 
 
+_INTERN = {}   # keeps every expression whose ast id is used as a key alive, so that ids are never recycled
+
+
+def sid(e):
+    e = simplify(e)
+    k = e.get_id()
+    _INTERN[k] = e
+    return k
+
+
 def key_of(path):
     out = []
     for p in path:
         c = conc(p) if not isinstance(p, int) else p
-        out.append(c if c is not None else 's%d' % simplify(p).get_id())
+        out.append(c if c is not None else 's%d' % sid(p))
     return tuple(out)
 
 
@@ -509,6 +519,7 @@ class Eval:
         s.hooks = {}                 # callee name -> python function(ev, state, args, instr) -> value
         s.nalloca = 0; s.depth = 0
         s.solver_checks = 0
+        s.loop_inv = {}; s.loop_havoc = {}
         s.branch_preds = {}          # symbolic branch conditions met during evaluation (for automatic case splits)
 
     # ---------------------------------------------------------------- helpers
@@ -899,7 +910,10 @@ class Eval:
         return outs
 
     def eval_loop(s, f, header, body, st, rets, info):
-        """dynamic unrolling with per-iteration merging. returns edge list (src, tgt, state) leaving the loop"""
+        """dynamic unrolling with per-iteration merging. returns edge list (src, tgt, state) leaving the loop.
+        If an invariant is registered for (function, header) the loop is cut instead (one symbolic iteration)."""
+        if (f.name, header) in s.loop_inv:
+            return s.eval_loop_cut(f, header, body, st, rets, info, s.loop_inv[(f.name, header)])
         exits = []
         cur = st; it = 0
         while cur is not None:
@@ -914,6 +928,35 @@ class Eval:
             if nxt is not None:
                 if not s.feasible(nxt.pc): nxt = None
             cur = nxt; it += 1
+        return exits
+
+    def eval_loop_cut(s, f, header, body, st, rets, info, spec):
+        """cut-point mode: spec = dict(inv=fn(vals)->Bool, rank=fn(vals)->BV) over the header phi values (dict res->value).
+        Obligations: invariant on entry; preserved by one iteration from ANY state satisfying it; rank decreases and
+        stays >= 0.  Execution continues after the loop from the havocked state (invariant + exit condition)."""
+        phis = [ins for ins in f.blocks[header] if ins.op == 'phi']
+        init = {ins.res: st.env[ins.res] for ins in phis}
+        s.oblig.append((st.pc, spec['inv'](init, st.env), 'loop invariant of %s holds on entry' % f.name))
+        h = st.copy()
+        fresh = {}
+        for ins in phis:
+            fresh[ins.res] = s.fresh_of(ins.ty, 'loop_%s_%s' % (f.name, ins.res)); h.env[ins.res] = fresh[ins.res]
+        s.loop_havoc[(f.name, header)] = fresh
+        inv_h = spec['inv'](fresh, h.env)
+        h.pcl = h.pcl + [inv_h]; h._pc = None
+        nstores = len([a for a in s.accesses if a[1] == 'store'])
+        outs = s.eval_region(f, body, header, h, header, rets, info)
+        if len([a for a in s.accesses if a[1] == 'store']) != nstores:
+            raise Unsupported('cut-point mode: the loop body writes memory')
+        back = outs.pop(('back',), [])
+        for b in back:
+            nxt = {ins.res: b.env[ins.res] for ins in phis}
+            s.oblig.append((b.pc, spec['inv'](nxt, b.env), 'loop invariant of %s is preserved by one iteration' % f.name))
+            r0 = spec['rank'](fresh, h.env); r1 = spec['rank'](nxt, b.env)
+            s.oblig.append((b.pc, And(r1 < r0, r0 >= 0), 'ranking function of the %s loop decreases and is non-negative (termination)' % f.name))
+        exits = []
+        for tgt, sts in outs.items():
+            for e in sts: exits.append(('__loop__', tgt, e))
         return exits
 
     def feasible(s, pc):
@@ -1355,7 +1398,8 @@ def abstract_nl(fs):
             try: r = x.decl()(*ch)
             except Exception: r = x
         memo[k] = r; return r
-    return [walk(simplify(f)) for f in fs]
+    keep = [simplify(f) for f in fs]      # keep alive: memo is keyed by ast id
+    return [walk(f) for f in keep]
 
 
 def ackermannize(fs):
@@ -1374,7 +1418,8 @@ def ackermannize(fs):
         try: r = x.decl()(*ch)
         except Exception: r = x
         memo[k] = r; return r
-    return [walk(simplify(f)) for f in fs]
+    keep = [simplify(f) for f in fs]      # keep alive: memo is keyed by ast id
+    return [walk(f) for f in keep]
 
 
 def _solve(claim, assumptions, axioms, timeout, tactic, want_model=True):
